@@ -9,10 +9,11 @@ import AioModel.Generated.C15
                         *un-normalised* path, unquoted)
 * `indexed`           = the `UrlDispatcher.resolve` walk that decides whether the resource is asked at all
 * `Fs`, `Node`        = the abstract file system: `lstat` of an absolute path given as its list of names
-* `walk`, `realpath`  = `posixpath.realpath` (non-strict) as used by `Path.resolve()`; symlink loops
-                        (`RuntimeError` in Python < 3.13) and embedded NUL (`ValueError`) are errors;
+* `walk`, `follow`    = `posixpath._joinrealpath` (non-strict, Python 3.12) / the kernel's path resolution;
                         fuel bounds the number of symlink expansions
-* `statF`             = `Path.stat()` (follows symlinks)
+* `realpath`          = `Path.resolve()`: on a symlink loop the *partially resolved*, normalised path is
+                        returned unless it still runs into the loop (`RuntimeError`); embedded NUL = `ValueError`
+* `statF`, `osLstat`  = `Path.stat()` (follows symlinks), `Path.lstat()` (follows them in the directory part)
 * `pathSegs`          = pathlib's parsing of the joined path (`//` and `.` dropped, `..` kept)
 * `lexNorm`           = `os.path.normpath` of an absolute pathlib path
 * `resolvePath`       = `StaticResource._handle` + `_resolve_path_to_response`
@@ -120,38 +121,85 @@ inductive RErr where
   | nul       -- ValueError: embedded null byte
 deriving Repr, DecidableEq
 
-/-- `posixpath._joinrealpath` (non-strict): `cur` is the resolved prefix, `rest` the names
-still to process; a link's target is spliced in front of the remaining names. -/
-def walk (fs : Fs) : Nat → Path → List Str → Except RErr Path
-  | _, cur, [] => .ok cur
-  | fuel, cur, name :: rest =>
-    if name = [] ∨ name = DOT then walk fs fuel cur rest
-    else if name = DOTDOT then walk fs fuel cur.dropLast rest
-    else if hasNul name then .error .nul
-    else match fs.lstat (cur ++ [name]) with
+/-- work list of `_joinrealpath`: a name still to process, or the end of a link's expansion -/
+inductive Item where
+  | name (s : Str)
+  | pop
+deriving Repr, DecidableEq
+
+def itemNames : List Item → List Str
+  | [] => []
+  | .name s :: t => s :: itemNames t
+  | .pop :: t => itemNames t
+
+inductive WalkRes where
+  | ok (p : Path)
+  | loop (partialPath : Path)   -- `(join(newpath, rest), False)`: the link met again while being expanded
+  | nul                         -- ValueError from `os.lstat`
+  | fuel                        -- more link expansions than any finite tree needs
+deriving Repr, DecidableEq
+
+/-- `posixpath._joinrealpath` (non-strict, Python 3.12): `cur` is the resolved prefix, `rest` the
+work list; a link's target is spliced in front of the remaining names; `act` are the links being
+expanded (`seen[newpath] is None`).  Meeting one of them again is a loop: the path so far plus
+all unprocessed names is returned *unresolved*. -/
+def walk (fs : Fs) : Nat → List Path → Path → List Item → WalkRes
+  | _, _, cur, [] => .ok cur
+  | fuel, act, cur, .pop :: rest => walk fs fuel act.tail cur rest
+  | fuel, act, cur, .name n :: rest =>
+    if n = [] ∨ n = DOT then walk fs fuel act cur rest
+    else if n = DOTDOT then walk fs fuel act cur.dropLast rest
+    else if hasNul n then .nul
+    else match fs.lstat (cur ++ [n]) with
       | .link target =>
-        match fuel with
-        | 0 => .error .loop
-        | fuel + 1 =>
-          walk fs fuel (if target.head? = some SLASH then [] else cur) (splitSlash target ++ rest)
-      | _ => walk fs fuel (cur ++ [name]) rest
-termination_by fuel _ rest => (fuel, rest.length)
-
-/-- `Path(p).resolve()` for an absolute `p` -/
-def realpath (fs : Fs) (fuel : Nat) (p : Path) : Except RErr Path := walk fs fuel [] p
-
-/-- `Path(p).stat()`: follow links, then look; `missing` for every OSError -/
-def statF (fs : Fs) (fuel : Nat) (p : Path) : Node :=
-  match realpath fs fuel p with
-  | .ok q => (match fs.lstat q with | .link _ => .missing | n => n)
-  | .error _ => .missing
-
-/-- pathlib's parse of the relative part: split at `/`, drop `""` and `"."` -/
-def pathSegs (s : Str) : List Str := (splitSlash s).filter (fun c => c != [] && c != DOT)
+        if act.contains (cur ++ [n]) then .loop (cur ++ [n] ++ itemNames rest)
+        else match fuel with
+          | 0 => .fuel
+          | fuel + 1 =>
+            walk fs fuel ((cur ++ [n]) :: act) (if target.head? = some SLASH then [] else cur)
+              ((splitSlash target).map .name ++ .pop :: rest)
+      | _ => walk fs fuel act (cur ++ [n]) rest
+termination_by fuel _ _ rest => (fuel, rest.length)
 
 /-- `os.path.normpath` of an absolute pathlib path given as names -/
 def lexNorm (p : Path) : Path :=
-  p.foldl (fun st c => if c = DOTDOT then st.dropLast else st ++ [c]) []
+  p.foldl (fun st c => if c = DOTDOT then st.dropLast else if c = [] ∨ c = DOT then st else st ++ [c]) []
+
+/-- the kernel's path resolution (`os.stat`): the real location, or an error -/
+def follow (fs : Fs) (fuel : Nat) (p : Path) : WalkRes := walk fs fuel [] [] (p.map .name)
+
+/-- `Path(p).resolve()` (non-strict) in Python 3.12: `os.path.realpath`, which on a symlink loop
+returns the *partially resolved* path, normalised by `abspath`; then `p.stat()` turns a remaining
+loop into `RuntimeError`.  If normalisation removed the looping link the result is a path whose
+components are not resolved. -/
+def realpath (fs : Fs) (fuel : Nat) (p : Path) : Except RErr Path :=
+  match follow fs fuel p with
+  | .ok q => .ok q
+  | .nul => .error .nul
+  | .fuel => .error .loop
+  | .loop partialPath =>
+    match follow fs fuel (lexNorm partialPath) with
+    | .ok _ => .ok (lexNorm partialPath)
+    | .nul => .error .nul
+    | _ => .error .loop
+
+/-- `Path(p).stat()`: follow links, then look; `missing` for every OSError -/
+def statF (fs : Fs) (fuel : Nat) (p : Path) : Node :=
+  match follow fs fuel p with
+  | .ok q => (match fs.lstat q with | .link _ => .missing | n => n)
+  | _ => .missing
+
+/-- `Path(p).lstat()`: the kernel follows links in the directory part only -/
+def osLstat (fs : Fs) (fuel : Nat) (p : Path) : Node :=
+  match p.getLast? with
+  | none => fs.lstat []
+  | some n =>
+    match follow fs fuel p.dropLast with
+    | .ok d => if n = [] ∨ n = DOT ∨ n = DOTDOT then .dir else fs.lstat (d ++ [n])
+    | _ => .missing
+
+/-- pathlib's parse of the relative part: split at `/`, drop `""` and `"."` -/
+def pathSegs (s : Str) : List Str := (splitSlash s).filter (fun c => c != [] && c != DOT)
 
 /-! ## `_handle`, `_resolve_path_to_response`, `FileResponse` -/
 
@@ -164,6 +212,7 @@ deriving Repr
 inductive Out where
   | notFound
   | forbidden
+  | serverError            -- an exception nobody handles (500)
   | listing (dir : Path)
   | file (real : Path) (id : Nat) (enc : Option Str)
 deriving Repr, DecidableEq
@@ -187,7 +236,11 @@ def resolvePath (fs : Fs) (fuel : Nat) (cfg : Cfg) (filename : Str) : Out ⊕ Pa
     | none => .inl .notFound
     | some p =>
       if statF fs fuel p = .dir then
-        (if cfg.showIndex then .inl (.listing p) else .inl .forbidden)
+        (if cfg.showIndex then
+           -- `_directory_as_html`: `dir_path.relative_to(self._directory)` raises ValueError
+           -- for a directory reached through a link that leaves the root
+           (if cfg.root.isPrefixOf p then .inl (.listing p) else .inl .serverError)
+         else .inl .forbidden)
       else .inr p
 
 /-- ASCII lower-casing (`str.lower()` on the ASCII header values the harness sends) -/
@@ -200,29 +253,29 @@ def withExt (p : Path) (ext : Str) : Path :=
   | none => p
 
 /-- the first pre-compressed sibling that the client accepts and that `lstat` says is regular -/
-def sibling (fs : Fs) (p : Path) (acceptEnc : Str) : List (Str × Str) → Option (Path × Nat × Str)
+def sibling (fs : Fs) (fuel : Nat) (p : Path) (acceptEnc : Str) : List (Str × Str) → Option (Path × Nat × Str)
   | [] => none
   | (ext, coding) :: t =>
     if (findSub coding acceptEnc 0).isSome then
-      match fs.lstat (withExt p ext) with
-      | .file id => some (withExt p ext, id, coding)
-      | _ => sibling fs p acceptEnc t
-    else sibling fs p acceptEnc t
+      match osLstat fs fuel (withExt p ext), follow fs fuel p.dropLast with
+      | .file id, .ok d => some (withExt (d ++ [p.getLast?.getD []]) ext, id, coding)
+      | _, _ => sibling fs fuel p acceptEnc t
+    else sibling fs fuel p acceptEnc t
 
 /-- `FileResponse._get_file_path_stat_encoding` + the status mapping in `FileResponse.prepare`;
 `acceptEnc` is the lower-cased Accept-Encoding value ("" when absent) -/
 def fileTarget (fs : Fs) (fuel : Nat) (p : Path) (acceptEnc : Str) : Out :=
-  match sibling fs p acceptEnc Gen.C15.encodingExtensions with
+  match sibling fs fuel p acceptEnc Gen.C15.encodingExtensions with
   | some (q, id, coding) => .file q id (some coding)
   | none =>
-    match realpath fs fuel p with
-    | .error _ => .notFound
+    match follow fs fuel p with
     | .ok q =>
-      match fs.lstat q with
-      | .file id => .file q id none
-      | .missing => .notFound
-      | .link _ => .notFound
-      | _ => .forbidden
+      (match fs.lstat q with
+       | .file id => .file q id none       -- `q` is where the bytes really live
+       | .missing => .notFound
+       | .link _ => .notFound
+       | _ => .forbidden)
+    | _ => .notFound
 
 /-- GET `filename` on the static route -/
 def serve (fs : Fs) (fuel : Nat) (cfg : Cfg) (filename : Str) (acceptEnc : Str) : Out :=
